@@ -415,25 +415,44 @@ class GroupModel:
         return False
 
     # ---- names ------------------------------------------------------------------------------
+    def uniq_call(self, t: Term):
+        """(identity of the uniquifier, base name) if t is the call of a uniquifier: a local closure `uniquify(name)` that loops until
+        the name is free (its set of used names is a variable of the enclosing function), or a later module-level helper / method of
+        that kind taking the set as its second argument (`_uniquify_name(name, used_names)`: the identity includes WHICH set)."""
+        it = self.it
+        if t[0] != "call" or t[3]:
+            return None
+        if t[1][0] == "lam" and len(t[2]) == 1 and it.atomic_closure(it.closures[t[1][1]]):
+            return t[1], t[2][0]
+        if t[1][0] in ("name", "attr") and len(t[2]) == 2 and t[2][1][0] == "obj" and it.objs[t[2][1][1]].kind == "set":
+            fn = it.resolve_function(t[1])
+            if fn is not None and it.inline(fn) and it.atomic_function(fn):
+                return ("fn", fn.qualname, t[2][1]), t[2][0]
+        return None
+
+    def uniq_function(self, uid):
+        """the FuncInfo of a uniquifier identity (closure or package function)"""
+        if uid[0] == "lam":
+            return self.it.closures[uid[1]].finfo
+        return self.prog.functions.get(uid[1])
+
     def _decode_name(self, out: Output) -> None:
         it = self.it
         nm = out.name
         if nm is None:
             out.problems.append("the output column has no name")
             return
-        is_uniq = lambda t: t[0] == "call" and t[1][0] == "lam" and len(t[2]) == 1 and not t[3] and it.atomic_closure(it.closures[t[1][1]])
+        is_uniq = lambda t: self.uniq_call(t) is not None
         if is_uniq(nm):
-            out.uniq = nm[1]
-            out.name_base = nm[2][0]
+            out.uniq, out.name_base = self.uniq_call(nm)
         elif nm[0] == "ifexp" and is_uniq(nm[3]):
             # <name kept as it is> if <condition> else uniquify(<base>): judged by the key-column rule
-            out.uniq = nm[3][1]
-            out.name_base = nm[3][2][0]
+            out.uniq, out.name_base = self.uniq_call(nm[3])
             out.name_keep = (nm[1], nm[2])
         elif out.kind == "key" or any(is_uniq(x) for x in subterms(nm)):
             # a name chosen by cases (kept as it is / uniquified): judged by the key-column rule, which evaluates the cases
             uq = [x for x in subterms(nm) if is_uniq(x)]
-            out.uniq = uq[0][1] if uq else None
+            out.uniq = self.uniq_call(uq[0])[0] if uq else None
             out.name_base = nm
             out.name_keep = (nm, nm)
         else:
